@@ -127,7 +127,7 @@ def forbidden_scan():
                 if re.match(r"^\s*axiom\s", line):
                     hits.append(f"{p}:{ln}: axiom")
                 for tok in FORBIDDEN:
-                    if tok in line:
+                    if re.search(r"(?<![A-Za-z0-9_.])" + re.escape(tok.strip()) + r"(?![A-Za-z0-9_])", line):
                         hits.append(f"{p}:{ln}: {tok.strip()}")
     return hits
 
@@ -165,8 +165,12 @@ def run_harness(component, seed, tier, workdir, extra_args=(), timeout=3600, bin
     os.makedirs(workdir, exist_ok=True)
     env = goenv()
     env.setdefault("GOMEMLIMIT", "8GiB")
-    rc, out = run([binary or HARNESS, "-dir", workdir, "-seed", str(seed), "-tier", tier] + list(extra_args) + [component],
-                  env=env, timeout=timeout)
+    try:
+        rc, out = run([binary or HARNESS, "-dir", workdir, "-seed", str(seed), "-tier", tier] + list(extra_args) + [component],
+                      env=env, timeout=timeout)
+    except subprocess.TimeoutExpired as e:
+        o = e.stdout if isinstance(e.stdout, str) else (e.stdout or b"").decode(errors="replace")
+        return -9, f"harness component {component} did not finish within {timeout} s (the implementation blocks?)\n" + (o or "")[-3000:]
     return rc, out
 
 
@@ -326,11 +330,13 @@ class Check:
         return self.proof_ok
 
     # -- correspondence side -------------------------------------------------------------------
-    def correspond(self, component, seed=None, extra_args=(), canon=None, sub=None, timeout=3600):
+    def correspond(self, component, seed=None, extra_args=(), canon=None, sub=None, timeout=None):
         """Run the harness component on the real code, the same operations on the Lean driver, diff.
         Returns stats dict (from the harness) or None if the harness could not run."""
         wd = os.path.join(self.workdir, sub or component)
         seed = self.seed if seed is None else seed
+        if timeout is None:
+            timeout = 900 if self.tier == "quick" else 7200
         rc, out = run_harness(component, seed, self.tier, wd, extra_args, timeout=timeout)
         if rc != 0:
             self.log(f"harness {component} exited {rc}:\n{out[-2000:]}")
